@@ -42,6 +42,11 @@ type Tree struct {
 	// like at this place if that site is left unrewritten.
 	Site int
 	Orig *Tree
+	// For statement-container sites: the explicit instance occupies elements
+	// [SpanLo, SpanHi) of the list stored in field SpanField; differences in
+	// other elements are outside the instance.
+	SpanField      string
+	SpanLo, SpanHi int
 }
 
 var (
@@ -257,6 +262,13 @@ type Difference struct {
 	Site int
 	// Unrewritten is set when the output at that site equals the input.
 	Unrewritten bool
+	// GotNode is the innermost node of the got side that contains the
+	// difference; SiteGot is the got subtree aligned with the site's root.
+	GotNode *Tree
+	SiteGot *Tree
+	// WantChain lists the nodes of the want side that enclose the
+	// difference, innermost first.
+	WantChain []*Tree
 }
 
 func (d *Difference) String() string {
@@ -290,18 +302,38 @@ func diffPath(want, got *Tree, m Mode, path []string) *Difference {
 		w2.Site, w2.Orig = 0, nil
 		d := diffPath(&w2, got, m, path)
 		if d != nil && d.Site == 0 {
-			d.Site = want.Site
 			if want.Orig != nil && diffPath(want.Orig, got, m, nil) == nil {
+				d.Site = want.Site
+				d.SiteGot = got
 				d.Unrewritten = true
 				d.Why = "reference site left as in the input"
 				d.Want, d.Got = &w2, got
 				d.Path = append([]string(nil), path...)
+				return d
+			}
+			inSpan := true
+			if want.SpanField != "" {
+				rel := d.Path[len(path):]
+				if len(rel) >= 2 && rel[0] == want.TypeName()+"."+want.SpanField {
+					var idx int
+					if _, err := fmt.Sscanf(rel[1], "[%d]", &idx); err == nil && (idx < want.SpanLo || idx >= want.SpanHi) {
+						inSpan = false
+					}
+				}
+			}
+			if inSpan {
+				d.Site = want.Site
+				d.SiteGot = got
 			}
 		}
 		return d
 	}
 	mk := func(why string) *Difference {
-		return &Difference{Path: append([]string(nil), path...), Want: want, Got: got, Why: why}
+		d := &Difference{Path: append([]string(nil), path...), Want: want, Got: got, Why: why}
+		if got != nil && got.Kind == KNode {
+			d.GotNode = got
+		}
+		return d
 	}
 	if want == nil || got == nil {
 		if want == got {
@@ -337,6 +369,10 @@ func diffPath(want, got *Tree, m Mode, path []string) *Difference {
 				}
 			}
 			if d := diffPath(wk, gk, m, append(path, want.TypeName()+"."+name)); d != nil {
+				if d.GotNode == nil {
+					d.GotNode = got
+				}
+				d.WantChain = append(d.WantChain, want)
 				return d
 			}
 		}
